@@ -36,7 +36,9 @@ def mixed_argument_runs(sc, rng, trials):
                       "app/worker.log", "app/z.log", "app.log", "app 2.log", "app-old.log", "app.d/x.log", "app+x.log"]
                      + ["many/f%02d.log" % q for q in range(25)],
              "dirB": ["b1.log"], "dirC": ["x/c1.log", "y/c2.log"], "dirD": []}
-    files = ["f1.log", "f2.log", "g/f3.log", "t.tar"]
+    # (single files named explicitly are attempted whatever their names say: a non-log suffix, alone or beneath a compression
+    #  suffix)
+    files = ["f1.log", "f2.log", "g/f3.log", "t.tar", "page.html.gz", "core.bin.xz", "notes.bin"]
     cont = {}
     for dn, fl in trees.items():
         os.makedirs(os.path.join(md, dn), exist_ok=True)
@@ -48,7 +50,8 @@ def mixed_argument_runs(sc, rng, trials):
     for fn in files:
         blob = b"".join(b"2024-01-01T00:00:00 src=%s idx=%d\n" % (fn.encode(), q) for q in range(2))
         cont[fn] = blob
-        gen.write(os.path.join(md, fn), gen.tar_bytes([("in.log", blob)]) if fn.endswith(".tar") else blob)
+        enc = {"gz": gen.gz_bytes, "xz": gen.xz_bytes}.get(fn.rsplit(".", 1)[-1])
+        gen.write(os.path.join(md, fn), gen.tar_bytes([("in.log", blob)]) if fn.endswith(".tar") else (enc(blob) if enc else blob))
 
     def expand(a):
         if a in trees:
